@@ -1,12 +1,580 @@
 package main
 
 import (
+	"encoding/json"
+	"fmt"
+	"go/types"
+	"math/big"
+	"os"
+	"os/exec"
+	"path/filepath"
 	"strings"
+	"time"
+
+	"golang.org/x/tools/go/ssa"
 )
 
-// tryReplay turns a candidate counterexample into a Go test injected into the
-// package with `go test -overlay` and runs it against the real code.
-// Returns true when the real code misbehaves as predicted.
+// Replay of candidate counterexamples on the real code.
+//
+// For a failed obligation of a *safety* kind (nil dereference, index / slice
+// bounds, failed type assertion, division by zero, violated library
+// precondition, explicit panic) the solver is asked again for a model of the
+// function's script (without the quantified axioms when the full script gives
+// none) together with the values of the function's inputs at entry: every
+// parameter and, through the entry heaps, what it points to (big.Int values,
+// struct fields, slice elements; bounded depth and length). From these values a
+// Go test is written that rebuilds the inputs, calls the real function and
+// reports whether it panicked. The test is injected into the function's package
+// with `go test -overlay` (nothing is written to /repo). Only a panic of the
+// real code counts as confirmation; a model that does not replay leaves the
+// obligation reported as `no-failing-input-found`.
+//
+// Inputs that cannot be rebuilt (function values, channels, maps, interfaces
+// other than elliptic.Curve / io.Reader / context.Context, unexported types or
+// fields of another package, closures) make the function not replayable; this is
+// stated in the replay file.
+
+
+const (
+	replayMaxDepth = 4
+	replayMaxElems = 40
+	replayMaxPtrElems = 6
+)
+
+type rnode struct {
+	t     types.Type
+	kind  string // int bool string bigint ptr slice curve reader ctx zero array
+	terms []int  // indices into rb.terms
+	kids  []*rnode
+	names []string // field names (ptr to struct)
+	skip  []bool   // fields that cannot be set
+}
+
+type rbuild struct {
+	g       *Gen
+	pkg     *types.Package
+	terms   []string
+	notes   []string
+	fail    string
+	imports map[string]string
+	// evaluation
+	vals   []string
+	stmts  []string
+	nvar   int
+	byRef  map[string]string
+}
+
+func (rb *rbuild) term(t string) int {
+	rb.terms = append(rb.terms, t)
+	return len(rb.terms) - 1
+}
+
+func (rb *rbuild) qual(p *types.Package) string {
+	if p == rb.pkg {
+		return ""
+	}
+	rb.imports[p.Path()] = p.Name()
+	return p.Name()
+}
+
+func (rb *rbuild) typeStr(t types.Type) string {
+	return types.TypeString(t, rb.qual)
+}
+
+func namedIs(t types.Type, path, name string) bool {
+	if n, ok := t.(*types.Named); ok {
+		o := n.Obj()
+		return o.Pkg() != nil && o.Pkg().Path() == path && o.Name() == name
+	}
+	return false
+}
+
+// usable: can a test in rb.pkg name this type?
+func (rb *rbuild) usable(t types.Type) bool {
+	ok := true
+	var walk func(t types.Type, d int)
+	walk = func(t types.Type, d int) {
+		if d > 6 {
+			return
+		}
+		switch u := t.(type) {
+		case *types.Named:
+			o := u.Obj()
+			if o.Pkg() != nil && o.Pkg() != rb.pkg && !o.Exported() {
+				ok = false
+			}
+		case *types.Pointer:
+			walk(u.Elem(), d+1)
+		case *types.Slice:
+			walk(u.Elem(), d+1)
+		case *types.Array:
+			walk(u.Elem(), d+1)
+		}
+	}
+	walk(t, 0)
+	return ok
+}
+
+func (rb *rbuild) build(v Val, t types.Type, depth int) *rnode {
+	g := rb.g
+	if !rb.usable(t) {
+		rb.notes = append(rb.notes, "type "+t.String()+" cannot be named from the package: zero value used")
+		return &rnode{t: t, kind: "zero"}
+	}
+	if isBigIntPtr(t) {
+		bv := sx("select", g.heap(g.entry, "BV", "(Array Int Int)"), v.T)
+		return &rnode{t: t, kind: "bigint", terms: []int{rb.term(v.T), rb.term(bv)}}
+	}
+	switch u := t.Underlying().(type) {
+	case *types.Basic:
+		switch {
+		case u.Info()&types.IsBoolean != 0:
+			return &rnode{t: t, kind: "bool", terms: []int{rb.term(v.T)}}
+		case u.Info()&types.IsInteger != 0:
+			return &rnode{t: t, kind: "int", terms: []int{rb.term(v.T)}}
+		}
+		rb.notes = append(rb.notes, "value of type "+t.String()+" is not rebuilt: zero value used")
+		return &rnode{t: t, kind: "zero"}
+	case *types.Interface:
+		switch {
+		case namedIs(t, "crypto/elliptic", "Curve"):
+			return &rnode{t: t, kind: "curve", terms: []int{rb.term(sx("i-typ", v.T))}}
+		case namedIs(t, "io", "Reader"):
+			return &rnode{t: t, kind: "reader"}
+		case namedIs(t, "context", "Context"):
+			return &rnode{t: t, kind: "ctx"}
+		}
+		rb.fail = "interface-typed input " + t.String()
+		return &rnode{t: t, kind: "zero"}
+	case *types.Pointer:
+		st, ok := u.Elem().Underlying().(*types.Struct)
+		if !ok {
+			rb.notes = append(rb.notes, "pointer to "+u.Elem().String()+" is not rebuilt: nil used")
+			return &rnode{t: t, kind: "zero"}
+		}
+		n := &rnode{t: t, kind: "ptr", terms: []int{rb.term(v.T)}}
+		if depth >= replayMaxDepth {
+			n.kind = "ptrleaf"
+			return n
+		}
+		for i := 0; i < st.NumFields(); i++ {
+			f := st.Field(i)
+			n.names = append(n.names, f.Name())
+			settable := f.Exported() || f.Pkg() == rb.pkg
+			if f.Name() == "_" || !settable || strings.HasPrefix(f.Type().String(), "google.golang.org/protobuf") || strings.Contains(f.Type().String(), "protoimpl") || strings.Contains(f.Type().String(), "sync.") {
+				n.kids = append(n.kids, nil)
+				continue
+			}
+			loc, sub := g.fieldLoc(u.Elem(), i, v.T)
+			if loc == nil {
+				// embedded struct / array value
+				if a, ok := f.Type().Underlying().(*types.Array); ok {
+					al := g.wholeArrayLoc(f.Type(), sub.T)
+					av := g.loadLoc(g.entry, al)
+					an := &rnode{t: f.Type(), kind: "array"}
+					for k := int64(0); k < a.Len() && k < 8; k++ {
+						ev := Val{T: sx("select", av.T, fmt.Sprint(k)), S: g.sortOf(a.Elem()), G: a.Elem()}
+						an.kids = append(an.kids, rb.build(ev, a.Elem(), depth+1))
+					}
+					n.kids = append(n.kids, an)
+				} else {
+					// struct by value: same as a pointer to it, assigned by dereference
+					pn := rb.build(Val{T: sub.T, S: "Int"}, types.NewPointer(f.Type()), depth+1)
+					n.kids = append(n.kids, &rnode{t: f.Type(), kind: "structval", kids: []*rnode{pn}})
+				}
+				continue
+			}
+			fv := g.loadLoc(g.entry, loc)
+			n.kids = append(n.kids, rb.build(fv, f.Type(), depth+1))
+		}
+		return n
+	case *types.Slice:
+		et := u.Elem()
+		n := &rnode{t: t, kind: "slice", terms: []int{rb.term(sx("s-arr", v.T)), rb.term(sx("s-off", v.T)), rb.term(sx("s-len", v.T))}}
+		max := replayMaxElems
+		switch et.Underlying().(type) {
+		case *types.Basic:
+		case *types.Pointer, *types.Slice:
+			if !isBigIntPtr(et) {
+				max = replayMaxPtrElems
+			}
+			if depth >= replayMaxDepth {
+				max = 0
+			}
+		default:
+			rb.notes = append(rb.notes, "elements of "+t.String()+" are not rebuilt: zero values used")
+			max = 0
+		}
+		es := g.sortOf(et)
+		for k := 0; k < max; k++ {
+			l := &Loc{Kind: LElem, Heap: elemHeapName(et), Base: sx("s-arr", v.T), Idx: sx("+", sx("s-off", v.T), fmt.Sprint(k)), S: es, G: et}
+			ev := g.loadLoc(g.entry, l)
+			n.kids = append(n.kids, rb.build(ev, et, depth+1))
+		}
+		return n
+	}
+	rb.fail = "input of type " + t.String()
+	return &rnode{t: t, kind: "zero"}
+}
+
+func (rb *rbuild) newVar() string {
+	rb.nvar++
+	return fmt.Sprintf("v%d", rb.nvar)
+}
+
+func (rb *rbuild) intVal(i int) (*big.Int, bool) {
+	s := strings.TrimSpace(rb.vals[i])
+	neg := false
+	if strings.HasPrefix(s, "(-") {
+		neg = true
+		s = strings.TrimSpace(strings.TrimSuffix(strings.TrimPrefix(s, "(-"), ")"))
+	}
+	v, ok := new(big.Int).SetString(s, 10)
+	if !ok {
+		return nil, false
+	}
+	if neg {
+		v.Neg(v)
+	}
+	return v, true
+}
+
+// expr returns a Go expression for the node under the model (emitting
+// statements for objects).
+func (rb *rbuild) expr(n *rnode) string {
+	if n == nil {
+		return ""
+	}
+	ts := rb.typeStr(n.t)
+	switch n.kind {
+	case "zero":
+		return "*new(" + ts + ")"
+	case "bool":
+		if strings.TrimSpace(rb.vals[n.terms[0]]) == "true" {
+			return "true"
+		}
+		return "false"
+	case "int":
+		v, ok := rb.intVal(n.terms[0])
+		if !ok {
+			rb.fail = "model value not an integer: " + rb.vals[n.terms[0]]
+			return "0"
+		}
+		b := n.t.Underlying().(*types.Basic)
+		lo, hi := intRangeBig(b)
+		if v.Cmp(lo) < 0 || v.Cmp(hi) > 0 {
+			rb.fail = fmt.Sprintf("model value %s outside the range of %s", v, b.Name())
+			return "0"
+		}
+		if v.Sign() < 0 {
+			return fmt.Sprintf("%s(%s)", ts, v)
+		}
+		return fmt.Sprintf("%s(%s)", ts, v)
+	case "bigint":
+		r, ok := rb.intVal(n.terms[0])
+		if !ok || r.Sign() == 0 {
+			return "(*big.Int)(nil)"
+		}
+		key := "big:" + r.String()
+		if x, ok := rb.byRef[key]; ok {
+			return x
+		}
+		v, ok := rb.intVal(n.terms[1])
+		if !ok {
+			v = new(big.Int)
+		}
+		rb.imports["math/big"] = "big"
+		x := rb.newVar()
+		rb.stmts = append(rb.stmts, fmt.Sprintf("%s, _ := new(big.Int).SetString(%q, 10); _ = %s", x, v.String(), x))
+		rb.byRef[key] = x
+		return x
+	case "curve":
+		rb.imports["github.com/btcsuite/btcd/btcec/v2"] = "btcec"
+		tag, _ := rb.intVal(n.terms[0])
+		if tag != nil && tag.Sign() == 0 {
+			return "(elliptic.Curve)(nil)"
+		}
+		if tag != nil {
+			for k, tg := range rb.g.P.typeTags {
+				if int64(tg) == tag.Int64() && strings.Contains(k, "edwards") {
+					rb.imports["github.com/decred/dcrd/dcrec/edwards/v2"] = "edwards"
+					return "edwards.Edwards()"
+				}
+			}
+		}
+		return "btcec.S256()"
+	case "reader":
+		rb.imports["crypto/rand"] = "crand"
+		return "crand.Reader"
+	case "ctx":
+		rb.imports["context"] = "context"
+		return "context.Background()"
+	case "ptrleaf":
+		r, ok := rb.intVal(n.terms[0])
+		if !ok || r.Sign() == 0 {
+			return "(" + ts + ")(nil)"
+		}
+		return "new(" + strings.TrimPrefix(ts, "*") + ")"
+	case "ptr":
+		r, ok := rb.intVal(n.terms[0])
+		if !ok || r.Sign() <= 0 {
+			return "(" + ts + ")(nil)"
+		}
+		key := typeKey(n.t) + ":" + r.String()
+		if x, ok := rb.byRef[key]; ok {
+			return x
+		}
+		x := rb.newVar()
+		rb.byRef[key] = x
+		et := n.t.Underlying().(*types.Pointer).Elem()
+		rb.stmts = append(rb.stmts, fmt.Sprintf("%s := new(%s); _ = %s", x, rb.typeStr(et), x))
+		for i, k := range n.kids {
+			if k == nil {
+				continue
+			}
+			switch k.kind {
+			case "structval":
+				px := rb.expr(k.kids[0])
+				if !strings.HasSuffix(px, "(nil)") {
+					rb.stmts = append(rb.stmts, fmt.Sprintf("%s.%s = *%s", x, n.names[i], px))
+				}
+			case "array":
+				for j, e := range k.kids {
+					rb.stmts = append(rb.stmts, fmt.Sprintf("%s.%s[%d] = %s", x, n.names[i], j, rb.expr(e)))
+				}
+			default:
+				rb.stmts = append(rb.stmts, fmt.Sprintf("%s.%s = %s", x, n.names[i], rb.expr(k)))
+			}
+		}
+		return x
+	case "slice":
+		arr, ok := rb.intVal(n.terms[0])
+		if !ok || arr.Sign() <= 0 {
+			return "(" + ts + ")(nil)"
+		}
+		ln, ok := rb.intVal(n.terms[2])
+		if !ok || ln.Sign() < 0 || ln.Cmp(big.NewInt(1<<16)) > 0 {
+			rb.fail = "model slice length " + rb.vals[n.terms[2]] + " is not replayable"
+			return "nil"
+		}
+		x := rb.newVar()
+		rb.stmts = append(rb.stmts, fmt.Sprintf("%s := make(%s, %d); _ = %s", x, ts, ln.Int64(), x))
+		for j, e := range n.kids {
+			if int64(j) >= ln.Int64() {
+				break
+			}
+			rb.stmts = append(rb.stmts, fmt.Sprintf("%s[%d] = %s", x, j, rb.expr(e)))
+		}
+		return x
+	}
+	return "*new(" + ts + ")"
+}
+
+func intRangeBig(b *types.Basic) (*big.Int, *big.Int) {
+	bits := map[types.BasicKind]int{types.Int8: 8, types.Int16: 16, types.Int32: 32, types.Int64: 64, types.Int: 64,
+		types.Uint8: 8, types.Uint16: 16, types.Uint32: 32, types.Uint64: 64, types.Uint: 64, types.Uintptr: 64, types.UntypedInt: 64}[b.Kind()]
+	if bits == 0 {
+		bits = 64
+	}
+	one := big.NewInt(1)
+	if b.Info()&types.IsUnsigned != 0 {
+		return big.NewInt(0), new(big.Int).Sub(new(big.Int).Lsh(one, uint(bits)), one)
+	}
+	h := new(big.Int).Lsh(one, uint(bits-1))
+	return new(big.Int).Neg(h), new(big.Int).Sub(h, one)
+}
+
+// splitSexprs: top-level elements of "( a b (c d) )"
+func splitSexprs(s string) []string {
+	s = strings.TrimSpace(s)
+	if strings.HasPrefix(s, "(") && strings.HasSuffix(s, ")") {
+		s = s[1 : len(s)-1]
+	}
+	var out []string
+	depth, start, inBar := 0, -1, false
+	for i := 0; i < len(s); i++ {
+		c := s[i]
+		if inBar {
+			if c == '|' {
+				inBar = false
+				if depth == 0 {
+					out = append(out, s[start:i+1])
+					start = -1
+				}
+			}
+			continue
+		}
+		switch {
+		case c == '|':
+			inBar = true
+			if depth == 0 && start < 0 {
+				start = i
+			}
+		case c == '(':
+			if depth == 0 && start < 0 {
+				start = i
+			}
+			depth++
+		case c == ')':
+			depth--
+			if depth == 0 && start >= 0 {
+				out = append(out, s[start:i+1])
+				start = -1
+			}
+		case c == ' ' || c == '\n' || c == '\t' || c == '\r':
+			if depth == 0 && start >= 0 {
+				out = append(out, s[start:i])
+				start = -1
+			}
+		default:
+			if depth == 0 && start < 0 {
+				start = i
+			}
+		}
+	}
+	if start >= 0 {
+		out = append(out, s[start:])
+	}
+	return out
+}
+
 func (P *Program) tryReplay(r *FuncResult, ob *Obligation, b *strings.Builder) bool {
+	if !safetyKinds[ob.Kind] && ob.Kind != "pre" {
+		fmt.Fprintf(b, "replay: not attempted (obligation kind %q is not a run-time failure that a single call exhibits as a panic)\n", ob.Kind)
+		return false
+	}
+	g := r.G
+	if g == nil || os.Getenv("TSVC_NOREPLAY") != "" {
+		return false
+	}
+	fn := g.fn
+	if fn.Parent() != nil || fn.Pkg == nil {
+		b.WriteString("replay: not attempted (closure)\n")
+		return false
+	}
+	rb := &rbuild{g: g, pkg: fn.Pkg.Pkg, imports: map[string]string{}, byRef: map[string]string{}}
+	ok := true
+	func() {
+		defer func() {
+			if e := recover(); e != nil {
+				ok = false
+				fmt.Fprintf(b, "replay: not attempted (%v)\n", e)
+			}
+		}()
+		var nodes []*rnode
+		for _, p := range fn.Params {
+			nodes = append(nodes, rb.build(g.vals[p], p.Type(), 0))
+		}
+		if rb.fail != "" {
+			fmt.Fprintf(b, "replay: not attempted (%s cannot be rebuilt)\n", rb.fail)
+			ok = false
+			return
+		}
+		ok = P.runReplay(g, fn, rb, nodes, ob, b)
+	}()
+	return ok
+}
+
+func (P *Program) runReplay(g *Gen, fn *ssa.Function, rb *rbuild, nodes []*rnode, ob *Obligation, b *strings.Builder) bool {
+	dir := filepath.Join(workDir, "replay-"+safeName(ob.Name))
+	_ = os.MkdirAll(dir, 0o755)
+	gv := "(get-value (" + strings.Join(rb.terms, " ") + "))\n"
+	if len(rb.terms) == 0 {
+		gv = ""
+	}
+	var out string
+	for _, base := range []string{g.script(), liteScript(g)} {
+		f := filepath.Join(dir, "model.smt2")
+		_ = writeFile(f, base+"(assert (not "+ob.Form+"))\n(check-sat)\n"+gv)
+		res := runSolver(solvers[0], f, 10)
+		if res.Status == "sat" || (res.Status == "unknown" && strings.Contains(res.Output, "((")) {
+			out = res.Output
+			break
+		}
+	}
+	if out == "" {
+		b.WriteString("replay: not attempted (the solver gave no model of the inputs)\n")
+		return false
+	}
+	if gv != "" {
+		k := strings.Index(out, "((")
+		if k < 0 {
+			b.WriteString("replay: not attempted (no values in the solver output)\n")
+			return false
+		}
+		pairs := splitSexprs(out[k:])
+		if len(pairs) != len(rb.terms) {
+			fmt.Fprintf(b, "replay: not attempted (%d values for %d terms)\n", len(pairs), len(rb.terms))
+			return false
+		}
+		for _, p := range pairs {
+			kv := splitSexprs(p)
+			if len(kv) != 2 {
+				b.WriteString("replay: not attempted (unparsable value)\n")
+				return false
+			}
+			rb.vals = append(rb.vals, kv[1])
+		}
+	}
+	var args []string
+	for _, n := range nodes {
+		args = append(args, rb.expr(n))
+	}
+	if rb.fail != "" {
+		fmt.Fprintf(b, "replay: not attempted (%s)\n", rb.fail)
+		return false
+	}
+	var call string
+	sig := fn.Signature
+	if sig.Recv() != nil {
+		call = fmt.Sprintf("(%s).%s(%s", args[0], fn.Name(), strings.Join(args[1:], ", "))
+	} else {
+		call = fmt.Sprintf("%s(%s", fn.Name(), strings.Join(args, ", "))
+	}
+	if sig.Variadic() {
+		call += "..."
+	}
+	call += ")"
+	var src strings.Builder
+	fmt.Fprintf(&src, "package %s\n\nimport (\n\t\"fmt\"\n\t\"testing\"\n", rb.pkg.Name())
+	for path, name := range rb.imports {
+		fmt.Fprintf(&src, "\t%s %q\n", name, path)
+	}
+	if strings.Contains(strings.Join(args, " ")+strings.Join(rb.stmts, " "), "elliptic.Curve") {
+		if _, ok := rb.imports["crypto/elliptic"]; !ok {
+			src.WriteString("\telliptic \"crypto/elliptic\"\n")
+		}
+	}
+	src.WriteString(")\n\n// generated by tsvc from a solver model of a failed obligation:\n// " + ob.Name + "\n")
+	src.WriteString("func TestTsvcReplay(t *testing.T) {\n\tdefer func() {\n\t\tif r := recover(); r != nil {\n\t\t\tfmt.Printf(\"TSVC-REPLAY: panic: %v\\n\", r)\n\t\t}\n\t}()\n")
+	for _, s := range rb.stmts {
+		src.WriteString("\t" + s + "\n")
+	}
+	src.WriteString("\t" + call + "\n\tfmt.Println(\"TSVC-REPLAY: returned\")\n}\n")
+	tf := filepath.Join(dir, "zz_tsvc_replay_test.go")
+	_ = writeFile(tf, src.String())
+	pkgDir := filepath.Join(P.repoDir, trimPkg(rb.pkg.Path()))
+	ov, _ := json.Marshal(map[string]interface{}{"Replace": map[string]string{filepath.Join(pkgDir, "zz_tsvc_replay_test.go"): tf}})
+	of := filepath.Join(dir, "overlay.json")
+	_ = writeFile(of, string(ov))
+	cmd := exec.Command("go", "test", "-overlay", of, "-vet=off", "-count=1", "-v", "-timeout", "60s", "-run", "^TestTsvcReplay$", ".")
+	cmd.Dir = pkgDir
+	t0 := time.Now()
+	o, _ := cmd.CombinedOutput()
+	res := string(o)
+	fmt.Fprintf(b, "replay: inputs rebuilt from the solver model and the real function called (go test -overlay, %.1fs)\n", time.Since(t0).Seconds())
+	for _, n := range rb.notes {
+		fmt.Fprintf(b, "replay note: %s\n", n)
+	}
+	fmt.Fprintf(b, "--- replay test ---\n%s\n--- replay output ---\n%s\n", src.String(), truncate(res, 4000))
+	if strings.Contains(res, "TSVC-REPLAY: panic:") {
+		b.WriteString("replay: the real code panics on this input (confirmed)\n")
+		return true
+	}
+	if strings.Contains(res, "panic: test timed out") {
+		b.WriteString("replay: the real code did not return within 60 s on this input (not counted as confirmation)\n")
+		return false
+	}
+	b.WriteString("replay: the real code did not fail on this input (candidate model not confirmed)\n")
 	return false
 }
